@@ -159,7 +159,12 @@ impl Prop for C17 {
         let region = (any::<u16>(), pos_sel(), pos_sel(), 0u8..=5).prop_map(|(c, a, b, extra)| Region { c, a, b, extra });
         (
             gen::bw_case(tier, false).prop_map(c01::make_case),
-            prop_oneof![4 => proptest::collection::vec(region.clone(), 1..=12), 1 => proptest::collection::vec(region, 12..=200)],
+            prop_oneof![
+                40 => proptest::collection::vec(region.clone(), 1..=12),
+                10 => proptest::collection::vec(region.clone(), 12..=200),
+                // a BED file large enough that one thread's chunk spans several read buffers (> 8 KiB)
+                1 => proptest::collection::vec(region, 900..=3000),
+            ],
             prop_oneof![
                 2 => Just(NameMode::Default),
                 3 => (1u8..=8).prop_map(NameMode::Column),
@@ -172,7 +177,11 @@ impl Prop for C17 {
                 1 => proptest::collection::vec(2u8..=16, 1..=3),
             ],
         )
-            .prop_map(|(file, regions, name, min_max, threads)| Case { file, regions, name, min_max, threads })
+            .prop_map(|(file, regions, name, min_max, threads)| {
+                // the large files always go through the tool with few threads (big chunks)
+                let threads = if regions.len() >= 900 { vec![2, 3] } else { threads };
+                Case { file, regions, name, min_max, threads }
+            })
             .boxed()
     }
     fn check(case: &Case, obs: &mut Obs) -> Result<(), String> {
@@ -218,7 +227,7 @@ impl Prop for C17 {
         obs.label_if(straddle, "region-straddles-values-and-gap");
         obs.label_if(rows.iter().any(|r| r.s == r.e), "zero-length-region");
         obs.label(&format!("name={:?}", case.name).split('(').next().unwrap().to_string());
-        obs.label(&format!("rows={}", match rows.len() { 0..=3 => "1-3", 4..=12 => "4-12", _ => ">12" }));
+        obs.label(&format!("rows={}", match rows.len() { 0..=3 => "1-3", 4..=12 => "4-12", 13..=899 => "13-899", _ => ">=900 (chunks > 8 KiB)" }));
 
         // ---- library: stats_for_bed_item
         let mut rd = open_bw(bytes.clone())?;
